@@ -315,8 +315,14 @@ func SpecTree(doc any, minVersion func(M) string) (verdict string, reasons []str
 		v.bad("cdiVersion missing")
 	} else if verIsStr {
 		if !Released[ver] {
-			if strings.HasPrefix(ver, "v") && Released[strings.TrimPrefix(ver, "v")] {
-				v.unsp("v-prefixed version")
+			if bare := strings.TrimPrefix(ver, "v"); strings.HasPrefix(ver, "v") && Released[bare] {
+				if min := minVersion(t); verLess(bare, min) {
+					// read as the released version it spells, it is too old; read as written, it is no
+					// released version: rejected either way
+					v.bad("cdiVersion %s is no released version, and older than required %s without its prefix", ver, min)
+				} else {
+					v.unsp("v-prefixed version")
+				}
 			} else {
 				v.bad("cdiVersion %q is not a released version", ver)
 			}
